@@ -50,6 +50,8 @@ func init() {
 			{"sectpr-last", "Body.MarshalXML collects every non-section element, in order (shape of the collecting loop)", ruleSectPrLast},
 			{"chardata-verbatim", "character data is stored as read (no transformation in the value's slice)", ruleCharDataVerbatim},
 			{"marshal-guard", "custom marshalers skip a field only when the field itself is absent (guard predicates cover every field)", ruleMarshalGuard},
+			{"marshal-pure", "serialising does not modify the model", ruleMarshalPure},
+			{"part-prov", "parts (pictures included) are stored exactly as read from the archive on Open", rulePartProv},
 		},
 		Assumptions: append([]string{"encoding/xml marshals exactly the tagged fields", "reader functions are those statically reachable from (*Document).parseDocument"}, commonAssumptions...),
 	}
@@ -64,6 +66,7 @@ func init() {
 			{"run-container", "paragraph reader descends into run containers", ruleRunContainer},
 			{"rel-append-only", "relationship lists of an opened document are only appended to", ruleRelAppendOnly},
 			{"skip-balanced", "the element skipper balances start and end tags (depth counter or recursion)", ruleSkipBalanced},
+			{"part-prov", "parts are stored exactly as read from the archive on Open (no limiting/transforming reader)", rulePartProv},
 			{"counter-numeric", "the restored image counter is a numeric maximum, not a lexicographic one", ruleCounterNumeric},
 		},
 		Assumptions: commonAssumptions,
@@ -101,6 +104,7 @@ func init() {
 		Rules: []Rule{
 			{"global-state", "classification of every package-level variable by reachable writers (mutation summaries over the VTA call graph)", func(r *Run) { ruleGlobalState(r, nil) }},
 			{"clone-alias", "documents derived from one another (template rendering) share no object the library can later change", ruleCloneAliasFor()},
+			{"pool-escape", "nothing taken from a package-level sync.Pool is returned to callers", rulePoolEscape(pkgDoc, pkgSty, pkgMd)},
 		},
 		Assumptions: commonAssumptions,
 	}
@@ -113,6 +117,7 @@ func init() {
 			{"err-atomic", "failure returns precede all writes (Remove*)", ruleErrAtomicRemove},
 			{"sectpr-last", "shape of Body.MarshalXML", ruleSectPrLast},
 			{"no-element-cache", "no Document field other than Body points at body elements", ruleNoElementCache},
+			{"marshal-pure", "serialising does not modify the model (mutation summaries + append into a reslice of the receiver)", ruleMarshalPure},
 		},
 		Assumptions: commonAssumptions,
 	}
@@ -268,6 +273,7 @@ func init() {
 			{"export-order", "emission driven by the ordered element list", ruleExportOrder},
 			{"export-esc/text", "run text escaped and emitted once", ruleExportEsc},
 			{"export-pure", "exporting never writes into the document (mutation summaries)", ruleExportPure},
+			{"pool-escape", "nothing taken from a package-level sync.Pool is returned to callers", rulePoolEscape(pkgMd)},
 			{"cross-call-state", "no writer field carries content from one element to the next except the frozen, reasoned ones", ruleCrossCallState("MarkdownWriter", "(*MarkdownWriter).Write")},
 		},
 		Assumptions: commonAssumptions,
